@@ -9,56 +9,9 @@
     resolver's answer, the redirect targets the HTTP client derives from the responses) is
     *input* of the model, attached to each hop.  Executable Gallina only. *)
 From Coq Require Import String Ascii List Bool NArith ZArith.
-From HK Require Import Model.IpClass.
+From HK Require Import Model.StrUtil Model.IpClass.
 Import ListNotations.
 Local Open Scope string_scope.
-
-(** * Byte-string helpers (strings.ToLower / TrimSpace / TrimSuffix / HasSuffix on ASCII) *)
-
-Definition lower_ascii (c : ascii) : ascii :=
-  let n := N_of_ascii c in
-  if (65 <=? n)%N && (n <=? 90)%N then ascii_of_N (n + 32) else c.
-
-Fixpoint to_lower (s : string) : string :=
-  match s with
-  | EmptyString => EmptyString
-  | String c t => String (lower_ascii c) (to_lower t)
-  end.
-
-Definition is_space (c : ascii) : bool :=
-  let n := N_of_ascii c in
-  ((9 <=? n)%N && (n <=? 13)%N) || (n =? 32)%N.
-
-Fixpoint trim_left (s : string) : string :=
-  match s with
-  | EmptyString => EmptyString
-  | String c t => if is_space c then trim_left t else s
-  end.
-
-Fixpoint trim_right (s : string) : string :=
-  match s with
-  | EmptyString => EmptyString
-  | String c t =>
-      let t' := trim_right t in
-      if is_space c && (t' =? "") then EmptyString else String c t'
-  end.
-
-Definition trim_space (s : string) : string := trim_right (trim_left s).
-
-(** strings.TrimSuffix(s, "."): removes one trailing dot *)
-Fixpoint trim_suffix_dot (s : string) : string :=
-  match s with
-  | EmptyString => EmptyString
-  | String c t => if (c =? ".")%char && (t =? "") then EmptyString else String c (trim_suffix_dot t)
-  end.
-
-(** strings.HasSuffix(s, suf) *)
-Fixpoint has_suffix (suf s : string) : bool :=
-  if s =? suf then true
-  else match s with
-       | EmptyString => false
-       | String _ t => has_suffix suf t
-       end.
 
 (** * Policy *)
 
